@@ -313,7 +313,7 @@ func (g *PG) sideEffect(d int) *canon.Node {
 		if vs := g.scope; len(vs) > 0 && g.r.Intn(3) == 0 {
 			name = Pick(g.r, vs).name // def of a name that also exists further out: shadows locally at most
 			for _, v := range vs {
-				if v.name == name && v.ty != TInt {
+				if v.name == name && (v.ty != TInt || name == "n") { // never the counter of a recursion
 					name = "inner" + g.o.Suffix
 				}
 			}
